@@ -13,8 +13,8 @@ use std::sync::atomic::{AtomicU64, Ordering};
 use std::sync::{Arc, Mutex};
 
 /// what is typed at the "Key name:" prompt (the tool trims it)
-const NAMES: [&str; 5] = ["k1", "second key", "Zo\u{eb}", "x-k1", "  padded \u{a0}"];
-const PASSWORDS: [&str; 3] = ["", "pw", "p\u{e4}"];
+const NAMES: [&str; 7] = ["k1", "second key", "Zo\u{eb}", "x-k1", "  padded \u{a0}", "team=ops", "team=dev"];
+const PASSWORDS: [&str; 2] = ["", "p\u{e4}ss w"];
 
 /// (initial file state, then (name index, password index) per key generation)
 #[derive(Clone, Debug, Hash, PartialEq, Eq)]
@@ -203,7 +203,7 @@ impl Model for M {
 }
 
 pub fn run(rep: &'static Report) {
-    rep.set_rule("E-GRAPH over histories: breadth-first search (stateright) over initial keyring states x all sequences of <=2 (quick) / <=3 (thorough) `kestrel key generate -o F --env-pass` commands with distinct names from a 5-name alphabet (one non-ASCII, one with a space, one that is a suffix of another, one typed with surrounding whitespace) and 3 passwords; each state's last command is executed by the real CLI on the memoised file of its parent history, and the state invariant (prefix preserved, parses for the real parser and for REF, every generated key present, unlocks under its own password to the private key of its PublicKey, pre-existing entries kept) is checked. distinct non-trivial = histories with at least one generation");
+    rep.set_rule("E-GRAPH over histories: breadth-first search (stateright) over initial keyring states x all sequences of <=2 (quick) / <=3 (thorough) `kestrel key generate -o F --env-pass` commands with distinct names from a 7-name alphabet (non-ASCII, with a space, a suffix of another, typed with surrounding whitespace, two names containing '=' with a common prefix) and 2 passwords; each state's last command is executed by the real CLI on the memoised file of its parent history, and the state invariant (prefix preserved, parses for the real parser and for REF, every generated key present, unlocks under its own password to the private key of its PublicKey, pre-existing entries kept) is checked. distinct non-trivial = histories with at least one generation");
     rep.assume("CLI runs use the real CSPRNG, so bytes differ between runs; a violating history is executed twice and the verdict must not flip");
     let ctx = Arc::new(Ctx { rep, seed: rep.seed, max_gens: rep.tier.pick(2, 3), inits: initial_states(rep.seed), memo: Mutex::new(HashMap::new()), executed: AtomicU64::new(0) });
     let _ = ctx.seed;
